@@ -37,6 +37,8 @@ CONSTANTS
   AckTimeout = 1
   MaxTime = %(maxt)d
   DropQueuedOnStop = %(drop)s
+  SlowRender = %(slow)s
+  RearmBeforeRender = %(rearm)s
 %(extra)s
 """
 INVS = "VIEW View\nINVARIANT NoBad\nINVARIANT CountMatches"
@@ -45,7 +47,7 @@ CAUSES = ["Rst", "Unsuccessful", "Last", "ReRegister", "ConTimeout", "TransportE
 
 
 # -- model behaviours -> schedules ---------------------------------------------------
-def behaviour_to_schedule(beh, mr):
+def behaviour_to_schedule(beh, mr, slow=False):
     steps = []
     expected = []
     tlast = 0
@@ -63,6 +65,8 @@ def behaviour_to_schedule(beh, mr):
             steps.append({"at": at, "do": "rx", "r": e0["r"], "ty": e0["ty"], "code": 0, "mid": {"notif": e0["n"]}})
         elif e0["k"] == "change":
             steps.append({"at": at, "do": "change", "n": len([e for e in emit if e["k"] == "change"]), "x": e0["x"]})
+        elif e0["k"] == "release":
+            steps.append({"at": at, "do": "release", "g": e0["g"]})
         elif e0["k"] == "err":
             steps.append({"at": at, "do": "err", "r": e0["r"]})
         elif e0["k"] == "shutdown":
@@ -74,6 +78,7 @@ def behaviour_to_schedule(beh, mr):
         "tuning": {"ACK_TIMEOUT": 1.0, "ACK_RANDOM_FACTOR": 1.0, "MAX_RETRANSMIT": mr},
         "mid0": 100,
         "nremotes": 3,
+        "rgate": bool(slow),
         "steps": steps,
         "horizon": None,
     }
@@ -161,6 +166,17 @@ def base_scenarios():
                                    {"at": 20, "do": "change"}, {"at": 30, "do": "shutdown"}, {"at": 40, "do": "change"}])
     mk("duplicate-registration-datagram", [reg(1, "a1", 1000), {"at": 10, "do": "change"}, ack(1, 1, 12), reg(1, "a1", 1000, at=20), {"at": 30, "do": "change"}, ack(1, 2, 32)])
     mk("slow-renderer-change-while-rendering", [reg(1, "a1", 1000, "NON"), {"at": 100, "do": "change"}, {"at": 103, "do": "change"}, {"at": 120, "do": "change", "n": 2}], rdelay=8)
+    # a change that lands while the renderer is suspended after sampling the state, and no later change
+    mk("change-inside-suspended-render-is-the-last", [reg(1, "a1", 1000, "NON"), {"at": 10, "do": "change"}, {"at": 12, "do": "change"},
+                                                      {"at": 20, "do": "release", "r": 1, "tok": "a1"}, {"at": 30, "do": "release", "r": 1, "tok": "a1"}], rgate=True)
+    mk("explicit-change-inside-suspended-render-con", [reg(1, "a1", 1000), reg(2, "a2", 2000, "NON"), {"at": 10, "do": "change"}, {"at": 12, "do": "change", "x": "ok"},
+                                                       {"at": 20, "do": "release", "r": 1, "tok": "a1"}, {"at": 21, "do": "release", "r": 2, "tok": "a2"}],
+       reactions=[{"r": 1, "nth": n, "copy": 1, "delay": 2, "ty": "ACK"} for n in (1, 2, 3)], rgate=True)
+    mk("burst-inside-suspended-render-released-at-the-end", [reg(1, "a1", 1000, "NON"), {"at": 10, "do": "change"}, {"at": 11, "do": "change", "n": 2}], rgate=True)
+    mk("last-inside-suspended-render", [reg(1, "a1", 1000, "NON"), {"at": 10, "do": "change"}, {"at": 12, "do": "change", "x": "last"},
+                                        {"at": 20, "do": "release", "r": 1, "tok": "a1"}, {"at": 30, "do": "change"}], rgate=True)
+    mk("sleeping-renderer-change-inside-is-the-last", [reg(1, "a1", 1000, "NON"), reg(2, "a2", 2000), {"at": 100, "do": "change"}, {"at": 103, "do": "change"}],
+       reactions=[{"r": 2, "nth": n, "copy": 1, "delay": 2, "ty": "ACK"} for n in (1, 2, 3)], rdelay=8)
     mk("shared-message-two-con-observers-one-silent", [reg(1, "a1", 1000), reg(2, "a2", 2000), {"at": 10, "do": "change", "x": "shared-ok"}, ack(2, 1, 20),
                                                        {"at": 30000, "do": "change"}], reactions=[{"r": 2, "nth": 2, "copy": 1, "delay": 5, "ty": "ACK"}, {"r": 1, "nth": 2, "copy": 1, "delay": 5, "ty": "ACK"}])
     # the Message object keeps the labels of the observer served last (iteration order of a set of objects:
@@ -244,6 +260,22 @@ def random_schedule(rng, idx):
         elif k == "shutdown":
             steps.append({"at": t, "do": "shutdown"})
             shut = True
+    # one schedule in four has a renderer that suspends after sampling the state (released by `release` steps
+    # sprinkled between the other steps, the rest when the steps are over): changes land inside the rendering
+    rgate = idx % 4 == 1
+    if rgate:
+        out = []
+        for st_ in steps:
+            out.append(st_)
+            if st_["do"] == "change" and rng.random() < 0.5:
+                o = rng.choice(regs)
+                out.append({"at": st_["at"] + rng.choice([0, 0, 1, 3]), "do": "release", "r": o["r"], "tok": o["tok"]})
+        out.sort(key=lambda x: x["at"])
+        # half of them end with a change that falls into a suspended rendering and nothing after it
+        if rng.random() < 0.5 and not shut:
+            out.append({"at": t + 5, "do": "change"})
+            out.append({"at": t + 6, "do": "change", "x": rng.choice(["", "", "ok"])})
+        steps = out
     reactions = []
     for r in sorted({o["r"] for o in regs}):
         policy = rng.choice(["mostly-ack", "mostly-ack", "mixed", "hostile"])
@@ -268,6 +300,7 @@ def random_schedule(rng, idx):
         "mid0": rng.choice([0, 300, 65530, rng.randint(0, 65535)]),
         "nremotes": 3,
         "rdelay": rng.choice([0, 0, 0, 0, 6]),
+        "rgate": rgate,
         "steps": steps,
         "reactions": reactions,
         "horizon": None,
@@ -326,11 +359,13 @@ def work(rep, args):
     seed = args.seed
     rng = random.Random(seed * 7919 + 8)
     if quick:
-        mc_confs = [dict(mr=1, nobs=2, chg=2, env=3, sil=2, maxt=4), dict(mr=1, nobs=1, chg=3, env=3, sil=2, maxt=4)]
-        nsim, nrand = 120, 320
+        mc_confs = [dict(mr=1, nobs=2, chg=2, env=3, sil=2, maxt=4), dict(mr=1, nobs=1, chg=3, env=3, sil=2, maxt=4),
+                    dict(mr=1, nobs=2, chg=2, env=2, sil=2, maxt=4, slow="TRUE"), dict(mr=1, nobs=1, chg=3, env=2, sil=2, maxt=4, slow="TRUE")]
+        nsim, nslow, nrand = 90, 60, 320
     else:
-        mc_confs = [dict(mr=1, nobs=2, chg=3, env=3, sil=2, maxt=4), dict(mr=1, nobs=1, chg=3, env=4, sil=2, maxt=4), dict(mr=2, nobs=1, chg=3, env=3, sil=3, maxt=8)]
-        nsim, nrand = 1500, 5000
+        mc_confs = [dict(mr=1, nobs=2, chg=3, env=3, sil=2, maxt=4), dict(mr=1, nobs=1, chg=3, env=4, sil=2, maxt=4), dict(mr=2, nobs=1, chg=3, env=3, sil=3, maxt=8),
+                    dict(mr=1, nobs=2, chg=3, env=2, sil=2, maxt=4, slow="TRUE"), dict(mr=1, nobs=1, chg=3, env=3, sil=2, maxt=4, slow="TRUE")]
+        nsim, nslow, nrand = 1000, 600, 5000
     phases = {}
     t0 = [time.time()]
 
@@ -342,7 +377,7 @@ def work(rep, args):
         # 1. exhaustive, repaired design
         mcs = []
         for i, c in enumerate(mc_confs):
-            wd.write("ObserveServer_mc%d.cfg" % i, MC_CFG % dict(c, drop="TRUE", extra=INVS))
+            wd.write("ObserveServer_mc%d.cfg" % i, MC_CFG % dict(dict(slow="FALSE", rearm="TRUE"), **dict(c, drop="TRUE", extra=INVS)))
             mc = tlc.run(wd, "ObserveServer.tla", "ObserveServer_mc%d.cfg" % i, timeout=600 if quick else 3000)
             tlc.need_ok_run(mc, "ObserveServer model check %s" % c)
             if mc.violated:
@@ -351,7 +386,7 @@ def work(rep, args):
         lap("model_check")
         # 1b. the pinned tree's variant: TLC's counterexample, replayed below
         cexc = dict(mr=1, nobs=1, chg=2, env=3, sil=2, maxt=4)
-        wd.write("ObserveServer_pinned.cfg", MC_CFG % dict(cexc, drop="FALSE", extra=INVS))
+        wd.write("ObserveServer_pinned.cfg", MC_CFG % dict(cexc, drop="FALSE", slow="FALSE", rearm="TRUE", extra=INVS))
         mcp = tlc.run(wd, "ObserveServer.tla", "ObserveServer_pinned.cfg", timeout=600)
         tlc.need_ok_run(mcp, "ObserveServer model check (pinned variant)")
         if not (mcp.violated and mcp.error_trace):
@@ -362,22 +397,37 @@ def work(rep, args):
         if "error" in cex_res:
             raise MachineryError("driver failed on the counterexample schedule\n%s" % cex_res["error"])
         pinned_like = compare(cex_exp, cex_res["events"], cex_tlast) is None
+        # 1c. known-bad variant: the trigger slot re-armed only after the rendering.  TLC has to find
+        # C08_LatestEventuallySent false (otherwise the window "change while the renderer is suspended" is not
+        # explored); its counterexample is run on the real code like any other schedule
+        badc = dict(mr=1, nobs=1, chg=2, env=1, sil=2, maxt=4)
+        wd.write("ObserveServer_rearm.cfg", MC_CFG % dict(badc, drop="TRUE", slow="TRUE", rearm="FALSE", extra=INVS))
+        mcb = tlc.run(wd, "ObserveServer.tla", "ObserveServer_rearm.cfg", timeout=600)
+        tlc.need_ok_run(mcb, "ObserveServer model check (re-arm-after-render variant)")
+        badset = mcb.error_trace[-1][1].get("obs", {}).get("bad", ()) if mcb.error_trace else ()
+        if not any(str(c).startswith("C08_LatestEventuallySent") for c in badset):
+            raise MachineryError("the re-arm-after-render variant of the model is expected to violate C08_LatestEventuallySent; TLC says %s %s" % (mcb.violated, sorted(badset)))
+        rearm_sched, rearm_exp, rearm_tlast = behaviour_to_schedule(list(mcb.error_trace), 1, slow=True)
+        rearm_sched["name"] = "model-counterexample-rearm-after-render"
         lap("pinned_variant")
         # 2. behaviours of the variant the tree conforms to
         simc = dict(mr=1, nobs=2, chg=3, env=6, sil=3, maxt=8)
-        wd.write("ObserveServer_sim.cfg", MC_CFG % dict(simc, drop="FALSE" if pinned_like else "TRUE", extra=""))
-        simdir = wd.file("sim")
-        os.makedirs(simdir)
-        sim = tlc.run(wd, "ObserveServer.tla", "ObserveServer_sim.cfg", workers=1, timeout=900,
-                      simulate="file=%s/tr,num=%d" % (simdir, nsim), depth=40, seed=seed + 1)
-        tlc.need_ok_run(sim, "ObserveServer simulation")
-        behaviours = tlc.read_sim_traces(os.path.join(simdir, "tr"))
+        model = []
+        for tag, slow, num in (("fast", False, nsim), ("slow", True, nslow)):
+            wd.write("ObserveServer_sim_%s.cfg" % tag, MC_CFG % dict(simc, drop="FALSE" if pinned_like else "TRUE",
+                                                                       slow="TRUE" if slow else "FALSE", rearm="TRUE", extra=""))
+            simdir = wd.file("sim_" + tag)
+            os.makedirs(simdir)
+            sim = tlc.run(wd, "ObserveServer.tla", "ObserveServer_sim_%s.cfg" % tag, workers=1, timeout=900,
+                          simulate="file=%s/tr,num=%d" % (simdir, num), depth=45, seed=seed + 1)
+            tlc.need_ok_run(sim, "ObserveServer simulation (%s renderer)" % tag)
+            model += [behaviour_to_schedule(b, 1, slow) for b in tlc.read_sim_traces(os.path.join(simdir, "tr"))]
         lap("simulate")
-        model = [behaviour_to_schedule(b, 1) for b in behaviours]
         model = [m for m in model if m[0]["steps"]]
+        nslow_model = len([m for m in model if m[0]["rgate"]])
         bases = base_scenarios()
         rands = [random_schedule(rng, i) for i in range(nrand)]
-        scheds = [cex_sched] + [m[0] for m in model] + bases + rands
+        scheds = [cex_sched] + [m[0] for m in model] + bases + rands + [rearm_sched]
         results = [cex_res] + run_all(scheds[1:])
         for s, res in zip(scheds, results):
             if "error" in res:
@@ -449,6 +499,10 @@ def work(rep, args):
                 "traces_validated_against_impl": len(scheds),
                 "events_validated": nevents,
                 "schedules_from_model_behaviours": len(model),
+                "of_which_with_suspending_renderer": nslow_model,
+                "rearm_after_render_variant_check": dict(badc, violated=mcb.violated, states=mcb.distinct, clauses=sorted(str(c) for c in badset),
+                                                         reproduced_on_implementation=bool(verdicts[-1]["bad"])),
+                "random_schedules_with_suspending_renderer": len([x for x in rands if x.get("rgate")]),
                 "model_behaviours_reproduced_exactly": len(model) - ndrift,
                 "targeted_scenarios": [b["name"] for b in bases],
                 "random_schedules": len(rands),
